@@ -62,6 +62,9 @@ func invalidPart(t tuple) string {
 	if t.keyLen <= 0 {
 		parts = append(parts, "keyLen<=0")
 	}
+	if u := unrepresentable(t); u != "" {
+		parts = append(parts, u)
+	}
 	if len(parts) == 0 {
 		return "keyLen too large"
 	}
@@ -120,12 +123,16 @@ func run(c *vf.Ctx) {
 			tuple{2, 1, 1<<30 - 1, k}, tuple{2, 1, 1 << 30, k}, tuple{2, 1<<30 + 1, 1, k}, tuple{16, 3, 1<<30/3 + 1, k}, tuple{16, 3, 1 << 30 / 3, k},
 			tuple{2, maxInt/256 + 1, 1, k}, tuple{2, maxInt / 256, 1, k}, tuple{1 << 56, 1, 1, k}, tuple{1 << 57, 1, 1, k}, tuple{1 << 40, 7, 1, k})
 	}
+	fam := overflowFamily()
+	grid = append(grid, fam...)
+	c.Set("overflow_family_tuples", len(fam))
 	c.Rule(fmt.Sprintf("full product N(%d values: minInt,-4..8,12,16,24,32..4096 powers of two,4097,2^31,2^31+1,2^62,maxInt) x r,p(%d values each: minInt,-2..8,2^30,maxInt/128,maxInt) x keyLen(%d values: minInt,-5..0,1,31,32,33,64,65,300) plus %d tuples around r*p=2^30 and the int-overflow guards; quick restricts p to {1,2,3,8} and keyLen to {-1,0,1,32,65,300} where N in 1024..4096 with valid r,p (a whole scrypt is computed there); thorough widens that to p in {1,2,3,8,17} with every keyLen and adds N in {8192,16384,65535,65536,65537} (valid ones with r in {1,2,8}, p in {1,2}, keyLen in {0,32,65}), r,p in {9,15,16,17}, keyLen in {2,63,96,97,1024,4097}; "+
 		"every tuple is executed on the real scrypt.Key; non-trivial = distinct RFC-valid tuples compared byte for byte with the RFC 7914 model; "+
-		"RFC-invalid tuples must give (nil, error); tuples whose magnitudes could allocate more than 256 MiB run in a child process under RLIMIT_AS",
-		len(Ns), len(rps), len(kls), 14*4))
+		"plus the overflow-product family (%d tuples: N=2^56..2^62 x r=1..256 x p{1,2}; N=2^k with r making N*r or 128*N*r equal 2^63/2^64 and r+-1; r*p and 128*r*p equal to 0, 1, 2, 3, 1024, 2^30-1 modulo 2^64 and 2^63; 256*r wrapping; keyLen{0,1,32}); "+
+		"RFC-invalid tuples and tuples whose byte counts 128*N*r, 128*r*p, 256*r do not fit an int must give (nil, error); tuples whose magnitudes could allocate more than 256 MiB run in a child process under RLIMIT_AS",
+		len(Ns), len(rps), len(kls), 14*4, len(fam)))
 	c.Assume("crypto/hmac and crypto/sha256 are correct (PBKDF2 of the model is built on them)")
-	c.Assume("RFC-valid tuples needing more than 256 MiB are executed but not judged (property excludes arguments that exhaust memory); the RFC bound N < 2^(16r) is treated as optional (key compared if one is returned, error accepted)")
+	c.Assume("RFC-valid tuples whose byte counts fit an int but need more than 256 MiB are executed but not judged (property excludes arguments that exhaust memory); the RFC bound N < 2^(16r) is treated as optional (key compared if one is returned, error accepted)")
 	c.Assume("password/salt values come from the value alphabet; they only enter scrypt through PBKDF2-HMAC-SHA256")
 	c.Set("grid_tuples", len(grid))
 	c.Set("product_tuples_thinned_out", reduced)
@@ -212,10 +219,112 @@ func run(c *vf.Ctx) {
 
 func big64(v int64) *big.Int { return big.NewInt(v) }
 
+// unrepresentable names the first byte count of the algorithm (V = 128*N*r, B = 128*r*p,
+// work area = 256*r), computed in unbounded integers, that does not fit the platform
+// int. Such arguments cannot even be passed to make(); the only acceptable answer is
+// (nil, error) - a panic or an allocation can only come from wrapped arithmetic, not
+// from memory exhaustion. "" when N, r or p is not positive or everything fits.
+func unrepresentable(t tuple) string {
+	if t.N <= 0 || t.r <= 0 || t.p <= 0 {
+		return ""
+	}
+	max := big64(math.MaxInt)
+	N, r, p := big64(int64(t.N)), big64(int64(t.r)), big64(int64(t.p))
+	mul := func(k int64, a, b *big.Int) *big.Int { return new(big.Int).Mul(big64(k), new(big.Int).Mul(a, b)) }
+	switch {
+	case mul(128, N, r).Cmp(max) > 0:
+		return "128*N*r>maxInt"
+	case mul(128, r, p).Cmp(max) > 0:
+		return "128*r*p>maxInt"
+	case mul(256, r, big64(1)).Cmp(max) > 0:
+		return "256*r>maxInt"
+	}
+	return ""
+}
+
+// inv64 is the inverse of odd a modulo 2^64 (Newton iteration).
+func inv64(a uint64) uint64 {
+	x := a
+	for i := 0; i < 6; i++ {
+		x *= 2 - a*x
+	}
+	return x
+}
+
+// overflowFamily: arguments whose products wrap modulo 2^64 or 2^63 to 0, to 1 or to a
+// small positive value when computed in machine integers. Every one of them is either
+// RFC-invalid or unrepresentable, so every one must be rejected with (nil, error).
+func overflowFamily() []tuple {
+	var out []tuple
+	seen := map[tuple]bool{}
+	add := func(n, r, p uint64) {
+		if n == 0 || r == 0 || p == 0 || n > math.MaxInt || r > math.MaxInt || p > math.MaxInt {
+			return
+		}
+		for _, k := range []int{0, 1, 32} {
+			t := tuple{int(n), int(r), int(p), k}
+			if !seen[t] {
+				seen[t] = true
+				out = append(out, t)
+			}
+		}
+	}
+	// N = 2^56..2^62 x r = 1..256 (powers of two) x p in {1,2}: N*r from 2^56 to 2^70,
+	// 128*N*r from 2^63 to 2^77 - wraps to 0 modulo 2^64 and 2^63, or to minInt
+	for k := uint(56); k <= 62; k++ {
+		for _, r := range []uint64{1, 2, 4, 8, 16, 32, 64, 128, 256} {
+			for _, p := range []uint64{1, 2} {
+				add(1<<k, r, p)
+			}
+		}
+	}
+	// smaller N with the r that makes N*r or 128*N*r exactly 2^63 / 2^64, and its
+	// neighbours r+1, r-1 (wrapped value N resp. 128*N: small relative to 2^64)
+	for k := uint(1); k <= 55; k++ {
+		for _, e := range []uint{56, 57, 63, 64} { // N*r = 2^e
+			if e <= k || e-k > 62 {
+				continue
+			}
+			r := uint64(1) << (e - k)
+			for _, p := range []uint64{1, 2} {
+				add(1<<k, r, p)
+				add(1<<k, r+1, p)
+				add(1<<k, r-1, p)
+			}
+		}
+	}
+	// r*p (and 128*r*p) wrapping: powers of two ...
+	for _, e := range []uint{56, 57, 63, 64} {
+		for a := uint(1); a < e && a <= 62; a++ {
+			if e-a > 62 || (a != 1 && a != 20 && a != 31 && a != 32 && a != e-2 && a != e-1 && a != 62) {
+				continue
+			}
+			add(2, 1<<a, 1<<(e-a))
+			add(1024, 1<<a, 1<<(e-a))
+		}
+	}
+	// ... and r*p = s modulo 2^64 / 2^63 for s in {1,2,3,1024,2^30-1}: p = r^-1 * s
+	for _, r := range []uint64{3, 5, 7, 9, 11, 13, 255} {
+		for _, s := range []uint64{1, 2, 3, 1024, 1<<30 - 1} {
+			p64 := inv64(r) * s
+			add(2, r, p64)
+			add(16, r, p64)
+			add(2, r, p64&(1<<63-1)) // modulo 2^63
+			add(16, r, p64&(1<<63-1))
+		}
+	}
+	// 256*r and 64*r wrapping (work area), p = 1
+	for _, a := range []uint{55, 56, 57, 58, 62} {
+		add(2, 1<<a, 1)
+		add(2, 1<<a+1, 1)
+	}
+	return out
+}
+
 // oversizedValidNrp: N, r, p alone satisfy RFC 7914 but V, B and the work area need
 // more than memCap.
 func oversizedValidNrp(t tuple) bool {
-	return scryptref.ValidParams(int64(t.N), int64(t.r), int64(t.p), 1) &&
+	return unrepresentable(t) == "" && scryptref.ValidParams(int64(t.N), int64(t.r), int64(t.p), 1) &&
 		scryptref.MemoryNeed(int64(t.N), int64(t.r), int64(t.p), 0).Cmp(big64(memCap)) > 0
 }
 
@@ -474,7 +583,7 @@ func runLimited(c *vf.Ctx, grid []tuple, idx []int) {
 func judgeLimited(c *vf.Ctx, t tuple, o outcome) {
 	c.Eval(1)
 	valid := scryptref.ValidParams(int64(t.N), int64(t.r), int64(t.p), int64(t.keyLen))
-	if !valid && !oversizedValidNrp(t) {
+	if (!valid || unrepresentable(t) != "") && !oversizedValidNrp(t) {
 		judge(c, t, false, o, nil, nil, [2]int{8, 4}, -1)
 		if t.r == 1<<30 && t.p == 1 && t.N == 2 && c.WantSample() {
 			c.Sample(map[string]any{"tuple": t.String(), "where": "child under RLIMIT_AS", "expected": "(nil, error)", "invalid": invalidPart(t)})
